@@ -1,5 +1,5 @@
 ---- MODULE MC_Core3 ----
 EXTENDS BDDSpec
 N3 == <<"a", "b", "c">>
-CoreActions == {"var", "ite", "drop", "gc", "swap", "dup", "dropgc"}
+CoreActions == {"var", "build", "ite", "drop", "gc", "swap", "dup", "dropgc"}
 ====
